@@ -370,6 +370,55 @@ func Run(ctx *common.Ctx) int {
 		}
 	})
 	cmp.Count("longest run, byte entry point, 10000-bit regime: fillers with planted runs of 17..12000 ones/zeros", lbEvals)
+	// byte strings over tiny alphabets - a sample may consist of printable digits, blanks or line ends only (a
+	// counter read back as text, a stuck UART): they are binary data like any other. Every byte-oriented entry
+	// point of the three tests against the reference on the MSB-first expansion.
+	{
+		alphabets := [][]byte{{0x30, 0x31}, {0x30, 0x31, 0x0A}, {0x20, 0x09, 0x0D, 0x0A}, {0x00, 0x01}, {0x30}, {0x31, 0x20}, {0xFF, 0xFE}, {0x41, 0x5A, 0x61, 0x7A}}
+		var tEvals int64
+		common.ParFor(len(alphabets), func(ai int) {
+			al := alphabets[ai]
+			for _, L := range []int{16, 40, 100, 800, 2500, 100000} {
+				f := enum.FillerBytes(L, uint64(ctx.Seed)+uint64(L)+uint64(ai))
+				data := make([]byte, L)
+				for i := range data {
+					data[i] = al[int(f[i])%len(al)]
+				}
+				bits := refmodel.Bits(data)
+				desc := func() interface{} {
+					return map[string]interface{}{"bytes": L, "alphabet_hex": fmt.Sprintf("%x", al), "filler_seed": ctx.Seed + int64(L) + int64(ai)}
+				}
+				type bc struct {
+					name string
+					f    func() (float64, float64)
+					ref  func() (float64, float64)
+					min  int
+				}
+				for _, c := range []bc{
+					{"RunsTestBytes", func() (float64, float64) { return r.RunsTestBytes(data) }, func() (float64, float64) { return refmodel.Runs(bits) }, 1},
+					{"RunsDistributionTestBytes", func() (float64, float64) { return r.RunsDistributionTestBytes(data) }, func() (float64, float64) { return refmodel.RunsDist(bits) }, 13},
+					{"LongestRunOfOnesInABlockTestBytes(ones)", func() (float64, float64) { return r.LongestRunOfOnesInABlockTestBytes(data, true) }, func() (float64, float64) { return refmodel.LongestRun(bits, true) }, 16},
+					{"LongestRunOfOnesInABlockTestBytes(zeros)", func() (float64, float64) { return r.LongestRunOfOnesInABlockTestBytes(data, false) }, func() (float64, float64) { return refmodel.LongestRun(bits, false) }, 16},
+					{"Runs(runner)", func() (float64, float64) { x := r.Runs(data); return x.P, x.Q }, func() (float64, float64) { return refmodel.Runs(bits) }, 1},
+					{"RunsDistribution(runner)", func() (float64, float64) { x := r.RunsDistribution(data); return x.P, x.Q }, func() (float64, float64) { return refmodel.RunsDist(bits) }, 13},
+					{"LongestRunOfOnesInABlock(runner)", func() (float64, float64) { x := r.LongestRunOfOnesInABlock(data); return x.P, x.Q }, func() (float64, float64) { return refmodel.LongestRun(bits, true) }, 16},
+				} {
+					if L < c.min {
+						continue
+					}
+					var p, q float64
+					if pv := common.Catch(func() { p, q = c.f() }); pv != nil {
+						cmp.Panic(c.name, pv, desc())
+						continue
+					}
+					wp, wq := c.ref()
+					cmp.PQ(c.name, uint64(L)<<8|uint64(ai), p, q, wp, wq, desc)
+					atomic.AddInt64(&tEvals, 1)
+				}
+			}
+		})
+		cmp.Count("byte entry points and runners on byte strings over eight tiny alphabets (digits, blanks, line ends, ...), 16..100000 bytes", tEvals)
+	}
 	// runs that start on and span power-of-two positions in long samples (a chunked / word-wise / parallel scan
 	// stitches its pieces exactly there): fillers of 2^18 and 10^6 bits with one planted run, all four calls
 	type planted struct{ n, k, j, L, off int }
